@@ -89,6 +89,19 @@ def scen_join(rng):
     return lines, expect, "join", model
 
 
+def scen_selfjoin(rng):
+    """joining a table equal to a FROM table (same name, no alias): accepted joins get the <name>2 alias (known finding),
+    a rejected one must leave the argument alone"""
+    qn = QNAMES[rng.choice(list(QNAMES))]
+    ok = rng.random() < 0.4
+    lines = ["s_t = T('t')", "again = T('t')", "q0 = %s.from_(s_t).select('a')" % qn]
+    if ok:
+        lines.append("r = q0.join(T('u')).on(s_t.a == T('u').a)")
+        return lines, None, "join", None
+    lines.append("r = q0.join(again).on(again.a == T('zz').a)")
+    return lines, "JoinException", "join-self", None
+
+
 def scen_simple(rng):
     """(lines, expected exception or None, guard name, model request or None)"""
     qn = QNAMES[rng.choice(list(QNAMES))]
@@ -168,12 +181,14 @@ def scen_simple(rng):
         exp = {"nothing_where": "QueryException", "fieldless_where": "QueryException", "ok_where": None, "ok_update_where": None,
                "no_handler": "QueryException", "fieldless_update": "QueryException"}[v]
     elif g == "pg_returning":
-        v = rng.choice(["agg", "agg_arith", "agg_plus_field", "foreign", "own", "star", "str", "select_query", "joined", "plain_fn"])
+        v = rng.choice(["agg", "agg_arith", "agg_plus_field", "foreign", "mixed_foreign", "mixed_foreign_fn", "own", "star", "str", "select_query", "joined", "plain_fn"])
         L = ["t = T('t')", "u = T('u')"]
         L += {"agg": ["q0 = PostgreSQLQuery.into(t).insert(1)", "r = q0.returning(fn.Sum(t.a))"],
               "agg_arith": ["q0 = PostgreSQLQuery.into(t).insert(1)", "r = q0.returning(fn.Max(t.a) + 1)"],
               "agg_plus_field": ["q0 = PostgreSQLQuery.into(t).insert(1)", "r = q0.returning(fn.Sum(t.a) + t.b)"],
               "foreign": ["q0 = PostgreSQLQuery.into(t).insert(1)", "r = q0.returning(u.a)"],
+              "mixed_foreign": ["q0 = PostgreSQLQuery.into(t).insert(1)", "r = q0.returning(t.a * u.b)"],
+              "mixed_foreign_fn": ["q0 = PostgreSQLQuery.update(t).set('a', 1)", "r = q0.returning(fn.Coalesce(t.a, u.b))"],
               "own": ["q0 = PostgreSQLQuery.update(t).set('a', 1)", "r = q0.returning(t.a, 'b')"],
               "star": ["q0 = PostgreSQLQuery.from_(t).delete()", "r = q0.returning('*')"],
               "str": ["q0 = PostgreSQLQuery.into(t).insert(1)", "r = q0.returning('a')"],
@@ -182,7 +197,8 @@ def scen_simple(rng):
               "plain_fn": ["q0 = PostgreSQLQuery.into(t).insert(1)", "r = q0.returning(fn.Upper(t.a))"]}[v]
         if v == "agg_plus_field":
             g = "pg_returning_mixed_aggregate"
-        exp = {"agg": "QueryException", "agg_arith": "QueryException", "agg_plus_field": "QueryException", "foreign": "QueryException", "own": None, "star": None, "str": None,
+        exp = {"agg": "QueryException", "agg_arith": "QueryException", "agg_plus_field": "QueryException", "mixed_foreign": "QueryException",
+               "mixed_foreign_fn": "QueryException", "foreign": "QueryException", "own": None, "star": None, "str": None,
                "select_query": "QueryException", "joined": None, "plain_fn": None}[v]
     elif g == "create_table":
         twice = rng.random() < 0.5
@@ -274,7 +290,7 @@ def examine(case):
     if case.get("fixed"):
         lines, expect, guard, model = case["fixed"], case["expect"], case["guard"], None
     else:
-        lines, expect, guard, model = scen_join(rng) if case["join"] else scen_simple(rng)
+        lines, expect, guard, model = (scen_selfjoin(rng) if rng.random() < 0.15 else scen_join(rng)) if case["join"] else scen_simple(rng)
     script = "\n".join(lines)
     case["recipe"] = script
     res.key = struct_hash(script)
